@@ -32,7 +32,7 @@ if ! git -C "$W" apply "$D/patch.diff"; then echo "PATCH DOES NOT APPLY"; exit 2
 echo "== changed tree: demo -> $(demo_run)"; tail -5 /tmp/mutdemo.$$
 rm -f /tmp/mutdemo.$$ /tmp/mutsuite.$$
 for c in "$@"; do
-  out=$(VERIF_REPO=$W VERIF_OUT=$OUT /verif/bin/vcheck run $c --tier $TIER 2>&1); rc=$?
+  out=$(VERIF_REPO=$W VERIF_OUT=$OUT ${VCHECK:-/verif/bin/vcheck} run $c --tier $TIER 2>&1); rc=$?
   echo "== check $c ($TIER): exit=$rc  $(echo "$out" | grep -c '^VIOLATION') VIOLATION lines"
   echo "$out" | grep -A1 '^VIOLATION' | head -4
   [ $rc = 2 ] && echo "$out" | tail -5
